@@ -715,6 +715,37 @@ def strategy_update(chk, pid):
         chk.ob("C08.R2", not bad, CORE, host, "visited-children-sums-only-under-the-gate",
                "what update sums over the children it visits (dormant securities are skipped) is recorded only when it records a change: outside that gate a redundant "
                "update would overwrite it with the smaller sum", where=bad[0].where if bad else fi.where, found="; ".join(e.where for e in bad)[:160])
+        # a quantity flushed out of the children on the first update of a date (the sweep: summed under the new-date literal, then zeroed at the source) exists only
+        # in that call: unless it is recorded together with the cash it was added to, it may only be written where the new-date literal holds - any later update of
+        # the same date would overwrite it with the empty sum
+        npt = canon(newpt)
+
+        def flushed_only(x):
+            # a first-update-only sum in value position that is not accompanied by the strategy's own cash (which has absorbed it)
+            if not isinstance(x, tuple) or not x:
+                return False
+            if x[0] == "sum" and len(x) == 4:
+                return any(p_ and canon(a_) == npt for a_, p_ in x[2]) and sym.contains(x[3], lambda m: m[0] == "fld" and len(m) == 4 and m[2] == R.CAPITAL)
+            if x[0] == "ite" and len(x) == 4:
+                return flushed_only(x[2]) or flushed_only(x[3])
+            if x[0] in ("fld", "param", "num", "str", "rat"):
+                return False
+            return any(flushed_only(y) for y in x[1:])
+
+        bad = []
+        for e in S.events:
+            if not own_event(e, S.fn.qual) or e.kind not in ("write", "store") or (e.kind == "write" and e.obj != SELF):
+                continue
+            v_ = e.value
+            if not isinstance(v_, tuple) or not flushed_only(v_) or sym.contains(v_, lambda m: m[0] == "fld" and len(m) == 4 and m[1] == SELF and m[2] == R.CAPITAL):
+                continue
+            g_rep = sym.sat(tuple(G(e)) + ((npt, False),))
+            if not sym.inconsistent(g_rep):
+                bad.append(e)
+        chk.ob("C08.R2", not bad, CORE, host, "swept-amount-recorded-only-on-the-first-update",
+               "the amount swept out of the children exists only in the first update of a date (the source is zeroed): recorded on its own it is written only under the "
+               "new-date literal, or a later update of the same date overwrites it with nothing", where=bad[0].where if bad else fi.where,
+               found="; ".join("%s under %s" % (e.where, sym.fmt_guard(plain(e.guard))[:80]) for e in bad)[:300])
     # ---- C03 / C17 index formulas
     if pid in ("C03", "C17", "C10", "C08"):
         _index_rules(chk, pid, S, fi, host, R)
@@ -1582,6 +1613,39 @@ def defer_rules(chk, pid, modules=("bt/core.py", "bt/algos.py"), only_hosts=None
                     chk.ob("C01.R6", ok, f.module, f.qual, key + ":refresh-date", "the closing refresh updates the root to the current date", where=c.where,
                            expected="root.update(<node>.now)", found=short(a0) if a0 else "no date")
     return n_sites
+
+
+def row_hint_rules(chk, pid, modules=("bt/core.py", "bt/algos.py", "bt/backtest.py")):
+    """The optional row hint (`inow`) of update(): a caller that passes one vouches that it is the row of the date it passes.  The only caller that can is an update() handing
+    its own resolved row down together with its own date; everywhere else the hint is None / absent (update then looks the row up itself).  A row remembered on some node and
+    handed in later (a cached `_inow` of the parent) is the row of whatever date that node resolved last - for a child strategy, which is handed its row and never resolves
+    one, the initial 0."""
+    n = 0
+    for f in chk.prog.all_functions(modules=modules):
+        has = any(isinstance(c, ast.Call) and isinstance(c.func, ast.Attribute) and c.func.attr == "update" and (len(c.args) >= 3 or any(k.arg == "inow" for k in c.keywords))
+                  for c in ast.walk(f.node))
+        if not has:
+            continue
+        hosts = [h for h in working_for(chk.prog, f)] or [f]
+        for h in hosts:
+            S = chk.summary(h.module, h.cls, h.name, host=h.cls, no_inline=("update", "allocate", "transact", "adjust", "flatten", "close", "rebalance", "run"))
+            for e in S.calls("update"):
+                hint = e.arg(None, "inow", pos=2)
+                if hint is None:
+                    continue
+                n += 1
+                chk.site()
+                d = e.arg(None, "date", pos=0)
+                if canon(hint) == canon(sym.NONE):
+                    ok = True
+                elif h.name == "update":
+                    ok = d is not None and canon(d) == canon(DATE) and (canon(hint) == canon(INOW) or is_inow(hint, guard=e.guard))  # resolved, or the caller's own hint passed on untouched
+                else:
+                    ok = False
+                chk.ob("C08.R4", ok, h.module, h.qual, "row-hint", "the row hint passed to update() is None, or update()'s own resolved row handed down with its own date - never a row "
+                       "remembered from another call or another node", where=e.where, expected="inow=None, or (date, inow) of the calling update()", found=short(hint, 160),
+                       sample={"hint": short(hint, 80)})
+    return n
 
 
 ALLOCATE_NOINLINE = ("adjust", "allocate", "update", "_create_child_if_needed", "transact", "close", "flatten")
